@@ -150,6 +150,10 @@ def run(ctx):
                 "strict reader must accept the output. Plus every (n, k): a record of n bytes carried by k packets. "
                 "non-trivial iff the output has ≥ 1 packet (legitimately empty outputs are counted separately).")
     ctx.assumptions = ["TCP sequence space of one exported conversation stays below 2^32 (no > 4 GiB flows generated)"]
+    import c06_model
+    ctx.prove(["TLX.Props.C06"])
+    ctx.require_theorems(c06_model.THEOREMS)
+    c06_model.run_model(ctx)
     explore(ctx)
     return ctx.finish(search=lambda c: explore(c, scale=2))
 
